@@ -16,6 +16,7 @@ import EnrVerif.Props.C08BuildMonitor
 import EnrVerif.Props.C08NonVacuity
 import EnrVerif.Props.C09
 import EnrVerif.Props.C10
+import EnrVerif.Props.C10Shape
 import EnrVerif.Props.C11
 import EnrVerif.Props.C12
 import EnrVerif.Props.C13
